@@ -191,6 +191,13 @@ func (p *pool) peers() []peer.ID {
 	return peers
 }
 
+// all returns every peer the pool keeps track of, including removed peers that are not cleaned up yet.
+func (p *pool) all() []peer.ID {
+	p.m.RLock()
+	defer p.m.RUnlock()
+	return append([]peer.ID(nil), p.peersList...)
+}
+
 // cleanup will reduce memory footprint of pool.
 func (p *pool) cleanup() {
 	newList := make([]peer.ID, 0, p.activeCount)
